@@ -260,7 +260,7 @@ def check(run: Run, prog: Program, cy: CyProgram, sites):
     m1(run, cy)
     n = report_sites(run, "M2", sites,
                      lambda s: s.func.module.relpath.endswith("core/network.py"))
-    run.floor("M2 call sites (network.py)", n, 5)
+    run.floor("M2 call sites (network.py)", n, 1)
     for (f, name, t, init, verdict, detail) in local_buffer_decls(cy):
         if f.module.name != CORE:
             continue
